@@ -71,6 +71,7 @@ package streamflow
 //@   allocates FlowGraphNode
 //@   ensures[new-node] result1 == nil ==> result0 != nil && !old(allocated(result0)) && allocated(result0) && result0.processorKey == processor.GetReferenceName() && result0.flowGraphName == flowRepName && len(result0.edges) == 0
 //@   ensures[no-node-on-error] result1 != nil ==> result0 == nil
+//@   ensures[fresh-nodes-have-no-edges] forall(n, *FlowGraphNode, allocated(n) && !old(allocated(n)) ==> len(n.edges) == 0)
 
 // One node per processor reference name in a direction.
 //@ func (*FlowDirection).getOrCreateNode
@@ -85,6 +86,7 @@ package streamflow
 //@   ensures[keys] forall(k, string, in(k, fd.nodes) ==> fd.nodes[k] != nil && allocated(fd.nodes[k]) && fd.nodes[k].processorKey == k)
 //@   ensures[no-edges-when-new] result1 == nil && !old(in(processor.GetReferenceName(), fd.nodes)) ==> len(result0.edges) == 0
 //@   ensures[unchanged-on-error] result1 != nil ==> forall(k, string, in(k, fd.nodes) <==> old(in(k, fd.nodes)))
+//@   ensures[fresh-nodes-have-no-edges] forall(n, *FlowGraphNode, allocated(n) && !old(allocated(n)) ==> len(n.edges) == 0)
 
 // processor -> processor: afterwards the source node has an edge with the configured condition to the target's node.
 //@ func (*flowBuilder).connectProcessors
@@ -96,6 +98,9 @@ package streamflow
 //@   allocates FlowGraphNode, ConnectionEdge
 //@   ensures[connected] result == nil ==> in(conn.GetFrom().GetProcessor().GetReferenceName(), flowDir.nodes) && in(conn.GetTo().GetProcessor().GetReferenceName(), flowDir.nodes) && exists(k, 0, len(flowDir.nodes[conn.GetFrom().GetProcessor().GetReferenceName()].edges), flowDir.nodes[conn.GetFrom().GetProcessor().GetReferenceName()].edges[k].condition == conn.GetFrom().GetProcessor().GetCondition() && flowDir.nodes[conn.GetFrom().GetProcessor().GetReferenceName()].edges[k].node != nil && flowDir.nodes[conn.GetFrom().GetProcessor().GetReferenceName()].edges[k].node.processorKey == conn.GetTo().GetProcessor().GetReferenceName())
 //@   ensures[keys] forall(k, string, in(k, flowDir.nodes) ==> flowDir.nodes[k] != nil && allocated(flowDir.nodes[k]) && flowDir.nodes[k].processorKey == k)
+//@   requires[root-has-node] flowDir.root != nil ==> flowDir.root.node != nil
+//@   ensures[dir-ok] buildDirOK(flowDir)
+//@   ensures[edges-ok] noNilEdges()
 
 // stream start -> processor: the direction's entry point is the processor's node (or, for a foreign flow, the pending root)
 //@ func (*flowBuilder).connectStreamToProcessor
@@ -107,6 +112,12 @@ package streamflow
 //@   ensures[entry-point] result == nil && flowDir.flowName == flowDir.nodes[conn.GetTo().GetProcessor().GetReferenceName()].flowGraphName ==> flowDir.root != nil && flowDir.root.node == flowDir.nodes[conn.GetTo().GetProcessor().GetReferenceName()] && flowDir.root.stream == conn.GetFrom().GetStream()
 //@   ensures[foreign-entry-point] result == nil && flowDir.flowName != flowDir.nodes[conn.GetTo().GetProcessor().GetReferenceName()].flowGraphName ==> fb.foreignRoot != nil && fb.foreignRoot.node == flowDir.nodes[conn.GetTo().GetProcessor().GetReferenceName()] && flowDir.root == old(flowDir.root)
 //@   ensures[keys] forall(k, string, in(k, flowDir.nodes) ==> flowDir.nodes[k] != nil && allocated(flowDir.nodes[k]) && flowDir.nodes[k].processorKey == k)
+//@   requires[root-has-node] flowDir.root != nil ==> flowDir.root.node != nil
+//@   requires[no-nil-edges] noNilEdges()
+//@   requires[foreign-root-has-node] fb.foreignRoot != nil ==> fb.foreignRoot.node != nil
+//@   ensures[dir-ok] buildDirOK(flowDir)
+//@   ensures[edges-ok] noNilEdges()
+//@   ensures[foreign-root-has-node] fb.foreignRoot != nil ==> fb.foreignRoot.node != nil
 
 // processor -> stream end: the source node gets an edge with the configured condition that ends the walk (or, for a
 // foreign request flow, leads to this direction's own entry node)
@@ -120,6 +131,8 @@ package streamflow
 //@   allocates FlowGraphNode, ConnectionEdge
 //@   ensures[connected] result == nil ==> in(conn.GetFrom().GetProcessor().GetReferenceName(), flowDir.nodes) && exists(k, 0, len(flowDir.nodes[conn.GetFrom().GetProcessor().GetReferenceName()].edges), flowDir.nodes[conn.GetFrom().GetProcessor().GetReferenceName()].edges[k].condition == conn.GetFrom().GetProcessor().GetCondition())
 //@   ensures[keys] forall(k, string, in(k, flowDir.nodes) ==> flowDir.nodes[k] != nil && allocated(flowDir.nodes[k]) && flowDir.nodes[k].processorKey == k)
+//@   ensures[dir-ok] buildDirOK(flowDir)
+//@   ensures[edges-ok] noNilEdges()
 
 // ---- C05: what validation establishes for a direction the loader accepts
 // `ranked`/`rank` are prophecy fields: ranked(n) <=> no cycle of processor connections is reachable from n, rank(n) =
@@ -150,3 +163,91 @@ package streamflow
 //@   ensures[both-directions-validated] result == nil ==> (len(flowGraph.request.nodes) > 0 ==> forall(k, string, in(k, flowGraph.request.nodes) ==> flowGraph.request.nodes[k].ranked)) && (len(flowGraph.response.nodes) > 0 ==> forall(k, string, in(k, flowGraph.response.nodes) ==> flowGraph.response.nodes[k].ranked))
 //@   ensures[some-direction-defined] result == nil ==> len(flowGraph.request.nodes) > 0 || len(flowGraph.response.nodes) > 0
 //@   ensures[request-needs-entry-point] result == nil && len(flowGraph.request.nodes) > 0 ==> flowGraph.request.root != nil && flowGraph.request.root.node != nil
+
+// ---------------------------------------------------------------- C05: building flows that lead into other flows terminates
+// (repair 528d13d) A flow that leads into another flow has that flow's connections built into its own direction
+// (incorporateFlow), which may in turn lead into further flows. The builder remembers the flows whose connections are
+// being built; a reference back to one of them is an error. Termination: the number of flows NOT in progress decreases
+// with every nested incorporation - buildConnections -> buildConnection -> connectProcessorToFlow/connectFlowToProcessor
+// -> incorporateFlow keep the measure (levels 3 > 2 > 1 > 0), incorporateFlow -> buildConnections decreases it.
+//@ ghost func buildDirOK(d *FlowDirection) bool = d != nil && d.nodes != nil && d.graphNodeBuilder != nil && forall(k, string, in(k, d.nodes) ==> d.nodes[k] != nil && allocated(d.nodes[k]) && d.nodes[k].processorKey == k) && (d.root != nil ==> d.root.node != nil)
+//@ ghost func noNilEdges() bool = forall(n, *FlowGraphNode, allocated(n) ==> forall(k, 0, len(n.edges), n.edges[k] != nil))
+//@ ghost func fbOK(fb *flowBuilder) bool = fb != nil && fb.flowReps != nil && fb.flowsInProgress != nil && forall(k, string, in(k, fb.flowsInProgress) ==> in(k, fb.flowReps)) && (fb.foreignRoot != nil ==> fb.foreignRoot.node != nil)
+// (subsetcard brings in, for these two key sets, the fact that a subset has at most as many elements)
+//@ ghost func notInProgress(fb *flowBuilder) int = ite(subsetcard(fb.flowsInProgress, fb.flowReps), len(fb.flowReps) - len(fb.flowsInProgress), 0 - 1)
+//@ pure FlowRepI.GetFlow
+//@ pure FlowRepI.GetName
+//@ pure FlowGraphRepI.GetFlowConnections
+//@ pure ProcessorManager.GetProcessorDefinitionByKey
+//@ pure ProcessorDefinition.CheckCondition
+
+//@ func (*flowBuilder).incorporateFlow
+//@   prop C05
+//@   requires[fb] fbOK(fb)
+//@   requires[dir] buildDirOK(targetFlowDir)
+//@   requires[edges] noNilEdges()
+//@   modifies mapof(targetFlowDir.nodes), allof(FlowGraphNode.edges), targetFlowDir.root, fb.foreignRoot, mapof(fb.flowsInProgress), now
+//@   allocates FlowGraphNode, ConnectionEdge, EntryPoint
+//@   decreases[incorporate/0] notInProgress(fb)
+//@   ensures[rejected-when-it-refers-back] old(in(flowName, fb.flowsInProgress)) ==> result != nil
+//@   ensures[bookkeeping-restored] forall(k, string, in(k, fb.flowsInProgress) <==> old(in(k, fb.flowsInProgress)))
+//@   ensures[fb-ok] fbOK(fb)
+//@   ensures[dir-ok] buildDirOK(targetFlowDir)
+//@   ensures[edges-ok] noNilEdges()
+
+//@ func (*flowBuilder).buildConnections
+//@   prop C05
+//@   requires[fb] fbOK(fb)
+//@   requires[dir] buildDirOK(flowDir)
+//@   requires[edges] noNilEdges()
+//@   modifies mapof(flowDir.nodes), allof(FlowGraphNode.edges), flowDir.root, fb.foreignRoot, mapof(fb.flowsInProgress), now
+//@   allocates FlowGraphNode, ConnectionEdge, EntryPoint
+//@   decreases[incorporate/3] notInProgress(fb)
+//@   loop 1 modifies mapof(flowDir.nodes), allof(FlowGraphNode.edges), flowDir.root, fb.foreignRoot, mapof(fb.flowsInProgress)
+//@   loop 1 invariant[bookkeeping] forall(k, string, in(k, fb.flowsInProgress) <==> old(in(k, fb.flowsInProgress)))
+//@   loop 1 invariant[fb-ok] fbOK(fb)
+//@   loop 1 invariant[dir-ok] buildDirOK(flowDir)
+//@   loop 1 invariant[edges-ok] noNilEdges()
+//@   ensures[bookkeeping-restored] forall(k, string, in(k, fb.flowsInProgress) <==> old(in(k, fb.flowsInProgress)))
+//@   ensures[fb-ok] fbOK(fb)
+//@   ensures[dir-ok] buildDirOK(flowDir)
+//@   ensures[edges-ok] noNilEdges()
+
+//@ func (*flowBuilder).buildConnection
+//@   prop C05
+//@   requires[fb] fbOK(fb)
+//@   requires[dir] buildDirOK(flowDir)
+//@   requires[edges] noNilEdges()
+//@   modifies mapof(flowDir.nodes), allof(FlowGraphNode.edges), flowDir.root, fb.foreignRoot, mapof(fb.flowsInProgress), now
+//@   allocates FlowGraphNode, ConnectionEdge, EntryPoint
+//@   decreases[incorporate/2] notInProgress(fb)
+//@   ensures[bookkeeping-restored] forall(k, string, in(k, fb.flowsInProgress) <==> old(in(k, fb.flowsInProgress)))
+//@   ensures[fb-ok] fbOK(fb)
+//@   ensures[dir-ok] buildDirOK(flowDir)
+//@   ensures[edges-ok] noNilEdges()
+
+//@ func (*flowBuilder).connectProcessorToFlow
+//@   prop C05
+//@   requires[fb] fbOK(fb)
+//@   requires[dir] buildDirOK(flowDir)
+//@   requires[edges] noNilEdges()
+//@   modifies mapof(flowDir.nodes), allof(FlowGraphNode.edges), flowDir.root, fb.foreignRoot, mapof(fb.flowsInProgress), now
+//@   allocates FlowGraphNode, ConnectionEdge, EntryPoint
+//@   decreases[incorporate/1] notInProgress(fb)
+//@   ensures[bookkeeping-restored] forall(k, string, in(k, fb.flowsInProgress) <==> old(in(k, fb.flowsInProgress)))
+//@   ensures[fb-ok] fbOK(fb)
+//@   ensures[dir-ok] buildDirOK(flowDir)
+//@   ensures[edges-ok] noNilEdges()
+
+//@ func (*flowBuilder).connectFlowToProcessor
+//@   prop C05
+//@   requires[fb] fbOK(fb)
+//@   requires[dir] buildDirOK(flowDir)
+//@   requires[edges] noNilEdges()
+//@   modifies mapof(flowDir.nodes), allof(FlowGraphNode.edges), flowDir.root, fb.foreignRoot, mapof(fb.flowsInProgress), now
+//@   allocates FlowGraphNode, ConnectionEdge, EntryPoint
+//@   decreases[incorporate/1] notInProgress(fb)
+//@   ensures[bookkeeping-restored] forall(k, string, in(k, fb.flowsInProgress) <==> old(in(k, fb.flowsInProgress)))
+//@   ensures[fb-ok] fbOK(fb)
+//@   ensures[dir-ok] buildDirOK(flowDir)
+//@   ensures[edges-ok] noNilEdges()
